@@ -139,7 +139,7 @@ func init() {
 		}
 		for i := 0; i < n; i++ {
 			r := rng.Fork()
-			walkCase(o, r, "C01", docOpts{collisions: r.Chance(30), abstract: r.Chance(35), maxDepth: 4, unknownOp: true, anonAmongOthers: true}, nil)
+			walkCase(o, r, "C01", docOpts{collisions: r.Chance(30), abstract: r.Chance(35), maxDepth: 4, unknownOp: true, anonAmongOthers: true, nestedFrags: r.Chance(45)}, nil)
 		}
 		for i := 0; i < n/10; i++ {
 			r := rng.Fork()
